@@ -1082,6 +1082,8 @@ class _Frame:
         if isinstance(obj, (list, dict, str, tuple, set)):
             if hasattr(obj, attr):
                 return getattr(obj, attr)
+            # a builtin container has exactly the attributes Python gives it: the program raises here
+            raise XRaise("AttributeError", f"'{type(obj).__name__}' object has no attribute '{attr}'")
         if isinstance(obj, (Poly, Rat, Lin, MQ, Fraction)) and attr in ("real",):
             return obj
         if isinstance(obj, Opaque):
